@@ -1089,7 +1089,12 @@ class Module(ABC):
             ]
 
         # Sorted inds are only used to infer the correct starting values.
-        indices_per_param = jnp.stack(comp_inds)
+        # The indices which are set by the parameter are padded with the last index of
+        # the group itself (setting a compartment twice to the same value is harmless),
+        # not with `-1`, which would overwrite the last compartment of the module.
+        indices_per_param = jnp.stack(
+            [np.where(inds == -1, inds[inds != -1][-1], inds) for inds in comp_inds]
+        )
 
         # Assign dummy param (ignored by nanmean later). This adds a new row to the
         # `data` (which is, e.g., self.nodes). That new row has index `-1`, which does
